@@ -145,14 +145,16 @@ def crashRun (prov : Bool) : Nat → Nat → Sys → Sys
     match nextPkt x with
     | some pkt =>
       let (_, es) := procStep s prov (takePkt x) pkt
-      if k < es.length then tryAct s (.procCrash prov k)
+      -- `k` counts driver / mailbox calls; a goroutine spawn is not a call (it is the only effect of its clause)
+      let calls := (es.filter (fun e => e != Eff.spawnFin)).length
+      if k < calls then tryAct s (.procCrash prov k)
       else match apply s (.proc prov) with
-        | some s' => crashRun prov fuel (k - es.length) s'
+        | some s' => crashRun prov fuel (k - calls) s'
         | none => s
     | none =>
       if x.finPend then
         -- the finalization handler: 2 effects
-        match finStep prov x sCanceled true with
+        match finStep finReturns prov x sCanceled true with
         | (some _, es) =>
           if k < es.length then restart prov (applyEffs prov s (es.take k))
           else restart prov (settle prov 8 s)
